@@ -226,6 +226,12 @@ def load_one(lit: LineIterator) -> dict:
     for lot in "MP2", "MP3", "CC", "CI":
         _load_dm(f"Total {lot} Density", fchk, one_rdms, "post_scf_ao")
         _load_dm(f"Spin {lot} Density", fchk, one_rdms, "post_scf_spin_ao")
+    for key, dm in one_rdms.items():
+        if dm.shape != (nbasis, nbasis):
+            raise LoadError(
+                f"The size of density matrix {key} is inconsistent with the number of basis functions.",
+                lit,
+            )
     if one_rdms:
         result["one_rdms"] = one_rdms
 
@@ -288,6 +294,11 @@ def load_one(lit: LineIterator) -> dict:
         atcharges["hirshfeld"] = fchk["Type 6 Charges"]
     if "Type 7 Charges" in fchk:
         atcharges["cm5"] = fchk["Type 7 Charges"]
+    for key, charges in atcharges.items():
+        if charges.shape != fchk["Atomic numbers"].shape:
+            raise LoadError(
+                f"The number of {key} charges is inconsistent with the number of atoms.", lit
+            )
     if atcharges:
         result["atcharges"] = atcharges
 
